@@ -11,10 +11,26 @@ use std::io::{BufRead, Write};
 
 use okane::import::Format;
 
-use crate::c16::{fields, load_config, run_books, run_import};
+use crate::c16::{cmd_check, fields, load_config, run_books, run_import};
 use crate::sx::enc;
 
-pub fn run(_args: &[String], out: &mut dyn Write) -> i32 {
+/// `hx c18 books`: `<id> fund=<ledger text> text=<ledger text>` -> `<id> proc=<real book-keeping over fund ++ text>`
+fn run_books_only(out: &mut dyn Write) -> i32 {
+    let stdin = std::io::stdin();
+    for line in stdin.lock().lines() {
+        let line = line.unwrap();
+        let (id, f) = fields(&line);
+        let fund = f.get("fund").cloned().unwrap_or_default();
+        let text = f.get("text").cloned().unwrap_or_default();
+        writeln!(out, "{} proc={}", id, run_books(&fund, &text)).unwrap();
+    }
+    0
+}
+
+pub fn run(args: &[String], out: &mut dyn Write) -> i32 {
+    if args.first().map(|s| s.as_str()) == Some("books") {
+        return run_books_only(out);
+    }
     let stdin = std::io::stdin();
     for line in stdin.lock().lines() {
         let line = line.unwrap();
@@ -39,13 +55,15 @@ pub fn run(_args: &[String], out: &mut dyn Write) -> i32 {
             (Some(p), false) => run_books(&fund, p),
             _ => "-".to_string(),
         };
+        let cmd = if f.contains_key("cmd") { cmd_check(&yaml, &src, "xml", imp.printed.as_deref()) } else { "-".to_string() };
         writeln!(
             out,
-            "{} import={} printed={} proc={}",
+            "{} import={} printed={} proc={} cmd={}",
             id,
             imp.sexp,
             enc(imp.printed.as_deref().unwrap_or("")),
-            proc_res
+            proc_res,
+            cmd
         )
         .unwrap();
     }
